@@ -1,15 +1,17 @@
-(* Obligation C20/poisson_logcdf_eq_log_cdf.  Statement as printed by Coq from Inferno.C20.DistProofs; proof by reference.
+(* Obligation C20/poisson_logcdf_eq_log_cdf.  Statement as printed by Coq from Inferno.C20.DistPoisson; proof by reference.
    This file contains nothing else, so the statement cannot be weakened quietly. *)
 From Coq Require Import Reals List ZArith Bool.
 From Coquelicot Require Import Coquelicot.
 From Flocq Require Import Core.Raux.
-From Inferno Require Import Base.Num Base.NumR C20.Model C20.Spec C20.DistProofs.
+From Inferno Require Import Base.Num Base.NumR Gen.Distributions C20.Model C20.Spec C20.DistPoisson.
 Import ListNotations.
 Open Scope R_scope.
-Theorem poisson_logcdf_eq_log_cdf : forall support rate : R,
+Theorem poisson_logcdf_eq_log_cdf : forall (lg : R -> R) (g : R -> R -> R) (support rate : R),
+  lgamma_spec lg ->
+  gammaincc_spec g ->
   0 < rate ->
   0 <= support ->
-  poisson_logcdf RN support rate = Rpower.ln (poisson_cdf RN support rate) /\
-  Rtrigo_def.exp (poisson_logcdf RN support rate) = poisson_cdf RN support rate.
-Proof. exact (@Inferno.C20.DistProofs.poisson_logcdf_eq_log_cdf). Qed.
+  poisson_logcdf RN g support rate = Rpower.ln (poisson_cdf RN g support rate) /\
+  Rtrigo_def.exp (poisson_logcdf RN g support rate) = poisson_cdf RN g support rate.
+Proof. exact (@Inferno.C20.DistPoisson.poisson_logcdf_eq_log_cdf). Qed.
 Print Assumptions poisson_logcdf_eq_log_cdf.
